@@ -1,0 +1,16 @@
+//go:build verif
+
+// Contracts for package multiproof, read by /verif's govc. Comments only; compiled only under tag "verif".
+
+package multiproof
+
+// ---- (de)serialisation (C10)
+
+//@ func MultiProof.Read
+//@ props C10
+//@ prelude field curve bytesint io frint
+//@ let p0 = rpos(r)
+//@ requires 0 <= rpos(r) && rpos(r) <= rd_len(r) && rpos(r) <= rd_fail(r)
+//@ ensures result == nil <==> (rd_len(r) == p0 + 576 && rd_fail(r) >= rd_len(r) && okPointAt(r, p0) && okPoints8(r, p0 + 32) && okPoints8(r, p0 + 288) && okScalarAt(r, p0 + 544))
+//@ ensures result == nil ==> len(mp.IPA.L) == 8 && len(mp.IPA.R) == 8
+//@ modifies *mp, rpos(r)
